@@ -52,3 +52,9 @@ Example C15_nonvacuous :
   cum_series cum_infections_upper_gen [3; 0; 2; 5]%Q = [3; 3 + 0; 3 + (0 + 2); 3 + (0 + (2 + 5))]%Q /\
   r_vals (scale_result 10 (mkRes true [1; 2]%Q)) = [10 * 1; 10 * 2]%Q /\ r_vals (scale_result 10 (mkRes false [1#2]%Q)) = [1#2]%Q.
 Proof. cbn. repeat split; try reflexivity. Qed.
+
+(* the hypothesis of C15_prevalence_range (infected agents are alive) cannot be dropped: SIS, HIV, Gonorrhea and NCD keep the flags of agents who died in the
+   current step, who are still active when the results are recorded (listed finding n-infected-counts-agents-who-died-this-step) *)
+Theorem C15_prevalence_above_one_refuted : exists infected alive au, (0 < count_state alive au)%nat /\ (1 < prevalence infected alive au)%Q.
+Proof. exact prevalence_above_one_refuted. Qed.
+Print Assumptions C15_prevalence_above_one_refuted.
